@@ -64,6 +64,7 @@ type Gen struct {
 	BadJSON int // if > 0, one in BadJSON xattr-setting ops carries an unparseable xattr value
 	Big     int // if > 0, one in Big bodies is padded to 64 KiB - 1 MiB
 	EmptyX  int // if > 0, one in EmptyX bodies handed to the body+xattr entry points is zero-length (but not nil)
+	Short   int // if > 0, one in Short JSON bodies is a very short document (SQLite takes some 8-byte texts for JSONB)
 	n       int
 }
 
@@ -76,6 +77,9 @@ func (g *Gen) jsonBody() []byte {
 			pad[i] = byte('a' + i%26)
 		}
 		return []byte(`{"n":7,"t":"big","u":"` + g.uniq() + `","pad":"` + string(pad) + `"}`)
+	}
+	if g.Short > 0 && g.R.Chance(1, g.Short) {
+		return []byte(rng.Pick(g.R, []string{`{"n":10}`, `{"n":77}`, `{"t":1}`, `[1,22]`, `{"ab":1}`, `{"n":1}`, `{"n":100}`}))
 	}
 	b := rng.Pick(g.R, jsonBodies)
 	// make the value unique so a read identifies the write it observed
